@@ -288,10 +288,11 @@ fn visit(
         st.digest_sum = st.digest_sum.wrapping_add(h);
         st.digest_xor ^= h.rotate_left(17);
     }
-    if ctl.want_samples && st.samples.len() < 3 && nontrivial && ex.choices.len() >= 3 {
+    let devs_total = ex.devs_used();
+    // samples: prefer histories with at least two deviations (nested reactions / non-default answers)
+    if ctl.want_samples && st.samples.len() < 3 && nontrivial && ex.choices.len() >= 3 && (devs_total >= 2 || t.dev_bound() < 2) {
         st.samples.push(sample_of(&ex));
     }
-    let devs_total = ex.devs_used();
     st.max_devs = st.max_devs.max(devs_total);
     let mut limit = usize::MAX;
     if let Some(v) = t.check(&ex) {
@@ -560,7 +561,7 @@ pub fn worker_loop(targets: &[Box<dyn Target>], recycle_after: u64) {
     let stdin = std::io::stdin();
     let mut out = std::io::stdout();
     let mut st = Stats::default();
-    let mut ctl = Ctl { deadline_epoch_s: deadline, want_samples: false, execs_since_check: 0 };
+    let mut ctl = Ctl { deadline_epoch_s: deadline, want_samples: true, execs_since_check: 0 };
     let mut lifetime_execs = 0u64;
     for line in stdin.lock().lines() {
         let Ok(line) = line else { break };
